@@ -1,20 +1,29 @@
 #!/bin/sh
-# tools/seed_matrix.sh [jobs]: run every stored seeded change against its property's quick check and write seeded/RESULTS.md (which
-# obligations report each change).  Each property has its own scratch worktree of /repo's HEAD under /tmp/seedwt (tools/seedtest_wt.sh):
-# /repo, the committed evidence and the replay directory are not touched, and properties run in parallel (default 5 at a time; the
-# changes of one property run one after the other).  All scratch worktrees are removed at the end.
+# tools/seed_matrix.sh [jobs] [Cxx ...]: run every stored seeded change (or only those of the named properties) against its property's quick
+# check and write seeded/RESULTS.md (which obligations report each change; rows of properties that were not rerun are kept).  Each property
+# has its own scratch worktree of /repo's HEAD under /tmp/seedwt (tools/seedtest_wt.sh): /repo, the committed evidence and the replay
+# directory are not touched, and properties run in parallel (default 5 at a time; the changes of one property run one after the other).
+# All scratch worktrees are removed at the end.
 cd /verif
 JOBS="${1:-5}"
+[ $# -gt 0 ] && shift
+IDS="$*"
+[ -z "$IDS" ] && IDS=$(ls -d seeded/C*-* | sed -E 's/seeded\/(C[0-9]+)-.*/\1/' | sort -u)
 mkdir -p /tmp/seedwt/rows
 rm -f /tmp/seedwt/rows/*
 cat > /tmp/seedwt/lane.sh <<'LANE'
 #!/bin/sh
-pid=$1
+lane=$1                      # Cxx, or Cxx.k = the k-th third of the changes of a property whose check is slow
+pid=${lane%%.*}
+k=${lane#*.}; [ "$k" = "$lane" ] && k=0
 cd /verif
+i=0
 for d in seeded/$pid-*; do
   id=$(basename $d)
   [ -f $d/patch.diff ] || continue
-  tools/seedtest_wt.sh /verif/$d/patch.diff $pid quick $pid > /tmp/seedwt/$id.log 2>&1
+  i=$((i+1))
+  [ "$k" != "0" ] && [ $(( (i - 1) % 3 + 1 )) != "$k" ] && continue
+  tools/seedtest_wt.sh /verif/$d/patch.diff $pid quick $lane > /tmp/seedwt/$id.log 2>&1
   if grep -q "PATCH DOES NOT APPLY" /tmp/seedwt/$id.log; then echo "| $id | | PATCH DOES NOT APPLY | |" > /tmp/seedwt/rows/$id; continue; fi
   obl=$(grep '^VIOLATION' /tmp/seedwt/$id.log | sed -E 's/.*replay=[^ ]*\/C[0-9]+__//; s/(__[0-9a-f]{8})?\.json.*//; s/__/\//g' | sort | uniq -c | sort -rn | awk '{printf "%s%s (x%s)", (NR>1?"; ":""), $2, $1}' | cut -c1-400)
   nf=$(grep -c 'no-failing-input-found' /tmp/seedwt/$id.log)
@@ -24,11 +33,29 @@ for d in seeded/$pid-*; do
 done
 LANE
 chmod +x /tmp/seedwt/lane.sh
-ls -d seeded/C*-* | sed -E 's/seeded\/(C[0-9]+)-.*/\1/' | sort -u | xargs -P "$JOBS" -n 1 /tmp/seedwt/lane.sh
+# the slow checks first and in three lanes each
+LANES=""
+for id in $IDS; do case $id in C01|C11) LANES="$id.1 $id.2 $id.3 $LANES";; *) LANES="$LANES $id";; esac; done
+echo $LANES | tr ' ' '\n' | grep . | xargs -P "$JOBS" -n 1 /tmp/seedwt/lane.sh
 OUT=seeded/RESULTS.md
-echo "| seeded change | functions changed | reported by (obligations of the quick check) |" > $OUT
-echo "|---|---|---|" >> $OUT
-cat $(ls /tmp/seedwt/rows/* | sort) >> $OUT
+python3 - "$OUT" <<'PY'
+import sys, os, re, glob
+out = sys.argv[1]
+rows = {}
+if os.path.exists(out):
+    for l in open(out):
+        m = re.match(r"\| (C\d+-[A-Z]) \|", l)
+        if m:
+            rows[m.group(1)] = l.rstrip("\n")
+for f in glob.glob("/tmp/seedwt/rows/*"):
+    rows[os.path.basename(f)] = open(f).read().rstrip("\n")
+stored = {os.path.basename(d) for d in glob.glob("/verif/seeded/C*-*") if os.path.isdir(d)}
+with open(out, "w") as fh:
+    fh.write("| seeded change | functions changed | reported by (obligations of the quick check) |\n|---|---|---|\n")
+    for k in sorted(rows):
+        if k in stored:
+            fh.write(rows[k] + "\n")
+PY
 for w in /tmp/seedwt/C*; do [ -d "$w/.git" ] || [ -f "$w/.git" ] && git -C /repo worktree remove --force "$w" 2>/dev/null; done
 rm -rf /tmp/seedwt
 git -C /repo worktree prune
